@@ -25,10 +25,11 @@ let smith_facts (line : string) : string =
     (match cl_doc_facts d, pr_doc_kept d with
      | Some f, Some kept ->
        let kept = List.sort compare (List.map ascii_of_str kept) in
-       Printf.sprintf "dup=%d closure=%s acyclic=%s fields=%s conflict=%s dupobj=%s dupiface=%s kept=%s spreads=%s"
+       Printf.sprintf "dup=%d closure=%s acyclic=%s fields=%s conflict=%s dupobj=%s dupiface=%s kept=%s spreads=%s tydepth=%d seldepth=%d"
          (int_of_n (sf_doc_dups d)) (b01 f.cf_closure) (b01 f.cf_acyclic) (b01 f.cf_fields) (b01 f.cf_conflict)
          (b01 f.cf_dup_obj) (b01 f.cf_dup_iface)
          (if kept = [] then "-" else String.concat "," kept) (b01 (pr_doc_spreads_resolve d))
+         (int_of_n (sd_doc_wrappers d)) (int_of_n (sd_doc_sel_depth d))
      | _ -> "fuel")
   | _ -> failwith "smith_facts line"
 
